@@ -12,7 +12,7 @@ INV = ["TypeOK", "HiBound", "Converged", "ExpiryRule", "MissRule", "SnapshotMatc
 
 def consts(**kw):
     c = dict(SrcSeq="<- Src2", ProvSeq="<- Prov2", MaxVer=2, TTL=1, TickLen=2, MaxTicks=1, MaxCalls=3, MaxEnv=1,
-             FIXED=True, EXPORT=True, InitFree=True, WithWaiter=True)
+             FIXED=True, EXPORT=True, InitFree=True, WithWaiter=True, MaxAuto=0)
     c.update(kw)
     return c
 
@@ -25,6 +25,8 @@ QUICK = {
     # appearance / disappearance / TTL expiry / negative entries, one version
     "C-expiry": consts(MaxVer=1),
     # one source, one provider, long histories: disappear / reappear / expire cycles (the removal timer must restart)
+    # a lookup finds the refresh interval elapsed: the automatic refresh runs in its own goroutine, alone or behind another writer
+    "E-auto": consts(MaxVer=1, MaxCalls=3, MaxEnv=1, MaxTicks=0, MaxAuto=1),
     "D-reappear": consts(SrcSeq="<- Src1", ProvSeq="<- Prov1", MaxVer=1, MaxCalls=5, MaxEnv=3, MaxTicks=1, WithWaiter=False),
 }
 THOROUGH = {
@@ -32,14 +34,15 @@ THOROUGH = {
     "T2-ttl3": consts(MaxVer=1, TTL=3, MaxTicks=2, MaxCalls=4, MaxEnv=1),
     "T3-3src": consts(SrcSeq="<- Src3", MaxVer=2, MaxCalls=2, MaxEnv=1, MaxTicks=0, WithWaiter=False),
     "T4-3prov": consts(ProvSeq="<- Prov3", MaxVer=1, MaxCalls=3, MaxEnv=1, MaxTicks=1, WithWaiter=False),
+    "T6-auto": consts(MaxVer=2, MaxCalls=4, MaxEnv=1, MaxTicks=0, MaxAuto=2),
     "T5-reappear": consts(SrcSeq="<- Src1", ProvSeq="<- Prov1", MaxVer=2, MaxCalls=7, MaxEnv=5, MaxTicks=3, WithWaiter=False),
 }
 
 
 # long random histories (TLC -simulate): three providers so that the merge threshold is crossed both ways
-SIM = consts(ProvSeq="<- Prov3", MaxCalls=14, MaxEnv=10, MaxTicks=2)
+SIM = consts(ProvSeq="<- Prov3", MaxCalls=14, MaxEnv=10, MaxTicks=2, MaxAuto=2)
 SIM1 = consts(SrcSeq="<- Src1", ProvSeq="<- Prov1", MaxVer=1, MaxCalls=10, MaxEnv=8, MaxTicks=2, WithWaiter=False)
-SIM_NOTICK = consts(ProvSeq="<- Prov3", MaxCalls=14, MaxEnv=10, MaxTicks=0)
+SIM_NOTICK = consts(ProvSeq="<- Prov3", MaxCalls=14, MaxEnv=10, MaxTicks=0, MaxAuto=2)
 
 
 def simulate(c, seed, num, tag):
